@@ -37,7 +37,17 @@ func init() {
 			p := seqProfile{minSteps: 4, maxSteps: 30, wTxn: 20, wCreateCol: 2, wDropCol: 1,
 				wInsert: 8, wAt: 8, wRange: 3, wDelete: 3, wDeleteAll: 1,
 				pAbort: 0.05, pMerge: 0.35, maxCols: 12, multiBlock: 0.5}
-			return genSeq("C01", seed, run, p, knownAvoid("C01", seed, run))
+			cs := genSeq("C01", seed, run, p, knownAvoid("C01", seed, run))
+			if pf := cs.Cfg.Prefill; run%40 == 7 && pf != nil && len(pf.Survivors) > 0 {
+				// rarely reached size: an enum column whose string table holds more than 65536 entries
+				for _, c := range cs.Schema {
+					if c.Kind == KEnum {
+						pf.EnumBulk, pf.EnumBulkN = c.Name, 66000+run%1000
+						break
+					}
+				}
+			}
+			return cs
 		},
 		Exec: func(cs *Case) *World { return runSeq(cs, seqOracles{dump: true}) },
 		Real: realComponents, Stub: seqStub,
